@@ -190,6 +190,12 @@ func TestVerifC18Child(t *testing.T) {
 	x.flush()
 }
 
+// the repository root as compiled into this binary: the directory of this (overlaid) file minus the package directory
+func vC18RepoRoot() string {
+	_, file, _, _ := runtime.Caller(0)
+	return strings.TrimSuffix(strings.TrimSuffix(filepath.Dir(file), vC18PkgDir), "/")
+}
+
 var vC18RaceFrame = regexp.MustCompile(`(?m)^\s+(\S+\.go):(\d+)`)
 
 // signature of one race report: the innermost frame in the repository's own code of each of the two
@@ -203,7 +209,7 @@ func vC18RaceSig(rep string) (sig string, ours bool) {
 			if strings.HasPrefix(p, runtime.GOROOT()) || strings.Contains(p, "/pkg/mod/") {
 				continue
 			}
-			short := filepath.Base(filepath.Dir(p)) + "/" + strings.TrimPrefix(filepath.Base(p), "zz_verif_") + ":" + m[2]
+			short := strings.TrimPrefix(strings.TrimPrefix(filepath.Dir(p)+"/", vC18RepoRoot()), "/") + strings.TrimPrefix(filepath.Base(p), "zz_verif_") + ":" + m[2]
 			if strings.Contains(p, "zz_verif_") {
 				if htop == "" {
 					htop = short
